@@ -12,6 +12,7 @@ CONSTANTS
   FixRecentCp = TRUE
   Coords = {0, 1}
   K = 2
+  Ks = {}
   NoCaller = 0
   NoHeight = 0
   EmptyHeights = {}
